@@ -4,7 +4,8 @@
    class body in source order, looking through function bodies but not into nested classes. *)
 From Coq Require Import String List.
 From CMinx Require Import Base.Str Model.Parser Model.Writer Model.DocTypes Model.Aggregator
-     Spec.AggSpec Gen.SourceLiterals Proofs.AggClass Proofs.LiteralsMatch.
+     Spec.AggSpec Gen.SourceLiterals Proofs.AggClass Proofs.LiteralsMatch
+     Base.PySem Gen.PySource Proofs.SourceMatch.
 Import ListNotations.
 
 (* cpp_class ... cpp_end_class is balanced: commands after cpp_end_class belong to the enclosing
@@ -159,3 +160,20 @@ Theorem C09_source_literals_pinned :
      s":param "; F; s":"; s"param "; F; []; s":type "; F; s":"; s"type "; F].
 Proof. exact (conj class_doc_literals method_doc_literals). Qed.
 Print Assumptions C09_source_literals_pinned.
+
+(* ---- tie by translation: Gen/PySource.v is regenerated from the CURRENT Python source by
+   translators/py2coq.py (statement-by-statement rendering of the function into Gallina over the
+   combinators of Base/PySem.v); the model function is proved equal to it for all arguments ---- *)
+Theorem C09_method_process_matches_source :
+  forall w m,
+    PySource.MethodDocumentation_process w [] (m_name m) (m_doc m) (m_types m) (m_params m) (m_macro m)
+    = w_add w (render_method m).
+Proof. exact method_process_matches_source. Qed.
+Print Assumptions C09_method_process_matches_source.
+
+Theorem C09_attribute_process_matches_source :
+  forall w a,
+    PySource.AttributeDocumentation_process w [] (a_name a) (a_doc a) (a_default a)
+    = w_add w (render_attribute a).
+Proof. exact attribute_process_matches_source. Qed.
+Print Assumptions C09_attribute_process_matches_source.
